@@ -374,7 +374,18 @@ func corr(args []string) {
 		dist[tn+":"+v]++
 		total++
 	}
-	for i := 0; i < *n; i++ {
+	// every record type of the plan needs at least one valid base record: rare types (contested / dishonored
+	// returns, refused NOCs) may not turn up in the first n files of a seed, so the loop goes on (bounded)
+	// until each type has one
+	lacking := func() bool {
+		for tn := range p.Fields {
+			if bases[tn] == 0 {
+				return true
+			}
+		}
+		return false
+	}
+	for i := 0; i < *n || (lacking() && i < 40**n); i++ {
 		f, _ := genFile(r, i)
 		if f == nil {
 			continue
